@@ -258,6 +258,9 @@ pub fn run(args: &[String]) -> i32 {
             ("type_mappings-ts-map-instance", Lang::TypeScript, "[typescript.type_mappings]\nDateTime = \"MappedDate\"\n\"HashMap<String,String>\" = \"StringMap\"\n\"HashMap<String,u32>\" = \"Counts\"\n".into(), Box::new(|t: &str| t.contains("labels: StringMap") && t.contains("counts: Counts[]"))),
             ("type_mappings-go-map-instance", Lang::Go, "[go]\npackage = \"p\"\n[go.type_mappings]\nDateTime = \"string\"\n\"HashMap<String,String>\" = \"StringMap\"\n\"HashMap<String,u32>\" = \"Counts\"\n".into(), Box::new(|t: &str| t.contains("Labels StringMap") && t.contains("Counts []Counts"))),
             ("type_mappings-python-map-instance", Lang::Python, "[python.type_mappings]\nDateTime = \"datetime\"\n\"HashMap<String,String>\" = \"StringMap\"\n\"HashMap<String,u32>\" = \"Counts\"\n".into(), Box::new(|t: &str| t.contains("labels: StringMap") && t.contains("counts: List[Counts]"))),
+            // keys naming scalar special types
+            ("type_mappings-go-scalar", Lang::Go, "[go]\npackage = \"p\"\n[go.type_mappings]\nDateTime = \"string\"\nu32 = \"MyU32\"\nString = \"MyString\"\n".into(), Box::new(|t: &str| t.contains("UserId MyU32") && t.contains("MyString"))),
+            ("type_mappings-ts-scalar", Lang::TypeScript, "[typescript.type_mappings]\nDateTime = \"MappedDate\"\nu32 = \"MyU32\"\n".into(), Box::new(|t: &str| t.contains("user_id: MyU32"))),
             ("type_mappings-python", Lang::Python, "[python.type_mappings]\nDateTime = \"datetime\"\n".into(), Box::new(|t: &str| t.contains("datetime"))),
             ("default_decorators", Lang::Swift, "[swift]\ndefault_decorators = [\"Sendable\", \"Hashable\"]\n[swift.type_mappings]\nDateTime = \"Date\"\n".into(), Box::new(|t: &str| t.contains("struct Item: Codable, Sendable, Hashable"))),
             ("default_generic_constraints", Lang::Swift, "[swift]\ndefault_generic_constraints = [\"Sendable\"]\n[swift.type_mappings]\nDateTime = \"Date\"\n".into(), Box::new(|t: &str| t.contains("Wrapper<T: Codable & Sendable>"))),
